@@ -57,14 +57,23 @@ def run_cases(draw):
             "store": draw(st.sampled_from([False, False, True])),
             # an inequality constraint g(x) = c - x0 < 0 (designs with x0 <= c are infeasible although their objective
             # values are the better ones): elitism then means constrained dominance - feasibility first
-            "constraint": draw(st.one_of(st.none(), st.none(), st.sampled_from([-1.0, 0.0, 0.3, 1.0])))}
+            "constraint": draw(st.one_of(st.none(), st.none(), st.sampled_from([-1.0, 0.0, 0.3, 1.0]))),
+            # the model refuses ONCE to recompute a design it has already evaluated (a solver that rejects a duplicate
+            # job): the transient failure then hits exactly the offspring that are unmodified copies of a parent
+            "fail_repeat": draw(st.sampled_from([False, False, True])),
+            # a large population on a one-parameter problem (many matings produce nothing new)
+            "big": draw(st.sampled_from([None, None, None, None, 100, 200]))}
 
 
 def check_run(case):
     from artap.operators import Selector
     from .c08 import algorithm_class
     n, m, N, G = case["n"], case["m"], case["N"], case["G"]
-    fails = set(case["fails"])
+    if case.get("big"):
+        n, N, G = 1, case["big"], min(G, 2)
+    fails = set(case["fails"]) if not case.get("big") else set()
+    refused = set()
+    seen_vec = set()
     calls = [0]
     ok_calls = []
     fail_vecs = []
@@ -75,6 +84,12 @@ def check_run(case):
         if k in fails:
             fail_vecs.append(list(ind.vector))
             raise RuntimeError("injected")
+        key_ = tuple(ind.vector)
+        if case.get("fail_repeat") and key_ in seen_vec and key_ not in refused:
+            refused.add(key_)
+            fail_vecs.append(list(ind.vector))
+            raise RuntimeError("duplicate job refused (injected, once per design)")
+        seen_vec.add(key_)
         ok_calls.append(tuple(ind.vector))
         x = ind.vector
         f = [sum((xi - 0.3 * (j + 1)) ** 2 for xi in x) + 0.05 * j * x[0] for j in range(m)]
@@ -206,7 +221,8 @@ def check_run(case):
     return {"nt": G >= 3 or bool(fail_vecs), "classes": [alg_name, "G>=3" if G >= 3 else "G<3",
                                                         "failures" if fail_vecs else "clean",
                                                         case.get("landscape", "smooth"), "start:" + case.get("start", "random")]
-            + (["twins-in-start"] if twins else []) + (["sqlite-record"] if stored is not None else []) + (["constrained"] if cons is not None else [])}
+            + (["twins-in-start"] if twins else []) + (["sqlite-record"] if stored is not None else []) + (["constrained"] if cons is not None else []) + (["repeat-refused"] if refused else []) + (
+                ["big-population"] if case.get("big") else [])}
 
 
 # ---------------------------------------------------------------- pop_acceptance, unit level
